@@ -66,7 +66,8 @@ func unignoreRules(ignoredRules *ignoredRules, rules []Rule) {
 }
 
 func parseIgnoreComment(comment string) (string, []Rule) {
-	body := strings.TrimLeft(comment, "#@*/ ")
+	// the comment of a CRLF terminated line ends with a carriage return
+	body := strings.TrimSpace(strings.TrimLeft(comment, "#@*/ "))
 	ignoreType, body, _ := strings.Cut(body, " ")
 
 	if supported, ok := supportedIgnoreTypes[ignoreType]; !ok || !supported {
